@@ -49,7 +49,10 @@ Schema(c) ==
                                     Field("d4", TNull(Str), NoDefault, "c2", red2),
                                     Fld("d5", TNull(TList(TMap(TRef("Ra")), Unset, 1))),
                                     Field("d6", TNull(I32), NoDefault, "c1", ""),
-                                    Fld("d7", TNull(TRef("Rl")))
+                                    Fld("d7", TNull(TRef("Rl"))),
+                                    \* a marked alias of a container as the item / value of another container
+                                    Fld("d8", TNull(TList(TRef("Rl"), Unset, 2))),
+                                    Fld("d9", TNull(TMap(TRef("Rl"))))
                                  >>, <<>>, FALSE)) @@
     ("P"  :> DStruct("nsa", "", << Fld("p1", I32), Field("p2", TNull(Str), NoDefault, "c1", red) >>,
                      <<Sub("q", "Q")>>, TRUE)) @@
